@@ -615,8 +615,14 @@ class CompareInterp(LibInterp):
             return bool(ca and cb and ca == cb and self.rank[a.args[0]] == self.rank[b.args[0]])
         if isinstance(a, Sym) or isinstance(b, Sym):
             return a is b
+        if isinstance(a, AList) and isinstance(b, AList):
+            return a is b or (len(a.l) == len(b.l) and all(self._eq(x, y) for x, y in zip(a.l, b.l)))
+        if isinstance(a, ADict) and isinstance(b, ADict):
+            return a is b or (set(a.d) == set(b.d) and all(self._eq(a.d[k], b.d[k]) for k in a.d))
+        if isinstance(a, (list, tuple)) and isinstance(b, (list, tuple)) and type(a) is type(b):
+            return len(a) == len(b) and all(self._eq(x, y) for x, y in zip(a, b))
         if isinstance(a, (AList, ADict)) or isinstance(b, (AList, ADict)):
-            return a is b
+            return False
         return a == b
 
     def method_hook(self, base, m, args, e):
@@ -654,7 +660,8 @@ def compare_values():
             ('datetime d1', D1), ('datetime d2', D2), ('date equal to d2', D2b), ('function f', F), ('function g', G), ('regex', RX),
             ('[]', []), ('[1]', [1]), ('[1, 2]', [1, 2]), ('[2]', [2]), ("[1, 'a']", [1, 'a']), ('[null]', [None]), ('[[1]]', [[1]]), ('[true]', [True]),
             ('{}', {}), ("{a:1}", {'a': 1}), ("{a:2}", {'a': 2}), ("{b:1,a:2} (insertion order b,a)", {'b': 1, 'a': 2}), ("{a:2,b:0}", {'a': 2, 'b': 0}), ("{a:1,c:0}", {'a': 1, 'c': 0}),
-            ("{a:[1]}", {'a': [1]}), ("{a:null}", {'a': None})]
+            ("{a:[1]}", {'a': [1]}), ("{a:null}", {'a': None}), ("{b:2,a:1} (insertion order b,a)", {'b': 2, 'a': 1}), ("{c:1,b:2,a:3}", {'c': 1, 'b': 2, 'a': 3}),
+            ("{c:3,b:2,a:1}", {'c': 3, 'b': 2, 'a': 1}), ('[1, 2, 3]', [1, 2, 3]), ('[1, 3]', [1, 3]), ("['a', 1]", ['a', 1]), ('[d1]', [D1]), ('[date equal to d2]', [D2b]), ('[d2]', [D2])]
     return rank, vals
 
 
